@@ -14,73 +14,73 @@ SYNC_NOTE = BASE_TRUST + " Sync tier: filecmp.dircmp listing contract (left_only
 CLAIMS = {
     "C01": ("other", "calc_id's call-site conformance to the canonical-JSON / UTF-8 / MD5 contracts proved (any other json.dumps option, encoder, encoding or digest use fails the postcondition); "
             "both loaders return only data whose re-derived id equals the requested id; open_job hands Job an unaliased deep copy; Job.__init__ derives the id from the state point. "
-            "The json/md5 contracts themselves (canonical form, type-exact round trip) are assumed and validated by the bounded layer against an independent canonical writer.",
+            "The json/md5 contracts themselves (canonical form, type-exact round trip) are assumed and validated by the bounded layer against an independent canonical writer. Also under C01: the statepoint getter / setter, cached_statepoint, _get_statepoint and _update_in_memory_cache (every lookup validates what it reads against the id; the cached copy is plain data).",
             "DESIGN 4/C01, 11", TECH + " with keyed contracts for json.dumps/md5; bounded validation of the dependency contracts", BASE_TRUST),
     "C02": ("other", "Contracts discharged for all symbolic pre-states and injected faults on Project.open_job (by state point: no disk effect, unaliased copy; by cached id; by full uncached id; by "
             "abbreviated id: resolved against the job directories only, unique => that job, none => KeyError, ambiguous => LookupError), Job.__init__, Job.init (creates a validating directory, "
             "idempotent, never rewrites without force), _StatePointDict.save/load (save-if-absent, load returns only validated data and leaves the in-memory data alone when the file is rejected), "
-            "the listing generator _job_dirs, __len__, __contains__. Whole-session statements (fresh Project finds the job by every route) are bounded model-based histories: level 'other'.",
+            "the listing generator _job_dirs, __len__, __contains__. Whole-session statements (fresh Project finds the job by every route) are bounded model-based histories: level 'other'. Added in the seed rounds: constructing a handle registers nothing in the project's cache; with force a valid state point file is not rewritten either (no-fault case); open_job by a cached id.",
             "DESIGN 4/C02, 11", TECH + " over a structured FS ghost state; filtered id collections for prefix resolution", FS_NOTE),
     "C03": ("other", "One Hoare triple per mutating operation (init, remove, clear, reset, re-key _save, move, clone, statepoint setter, update_statepoint, open_job, Job.__init__): each preserves the "
             "job class invariant and the frame 'every other job untouched'; the lift to arbitrary histories is the induction over these triples (stated, not mechanised) and is sampled by the "
-            "bounded model-based histories: level 'other'.",
+            "bounded model-based histories: level 'other'. Added in the seed rounds: __copy__, the state point setter with a shallow-copy sibling, _StatePointDict.load (fills the in-memory data), Job.move with an open document handle.",
             "DESIGN 4/C03, 11", TECH + ": class invariant + per-operation triples", FS_NOTE),
     "C04": ("other", "Re-key (_StatePointDict._save) proved for an arbitrary number of live handles: directory moved with all entries, new state point written, no backup left, every handle follows; "
             "DestinationExistsError implies byte-identical state; occupied destination never clobbered. Job.move, Project.clone, the statepoint setter and update_statepoint (conflict => KeyError "
-            "without effect; otherwise the live state point updated) likewise. Job's copy / pickle protocol methods (__getstate__, __setstate__, __deepcopy__) are under contract (F22 repaired); whole copy / pickle round trips are bounded (known finding F26 for re-keys inside a buffered block).",
+            "without effect; otherwise the live state point updated) likewise. Job's copy / pickle protocol methods (__getstate__, __setstate__, __deepcopy__) are under contract (F22 repaired); whole copy / pickle round trips are bounded (known finding F26 for re-keys inside a buffered block). Added in the seed rounds: Job.__copy__ (the original's state point object exists and is shared with the copy: defect F28 repaired), the setter's shallow-copy sibling, load and update_statepoint under C04 as well.",
             "DESIGN 4/C04, 11", TECH + ", arbitrary-element loop rule for the handle list", FS_NOTE),
     "C05": ("other", "What signac itself contributes is proved: Job.document hands out one cached BufferedJSONAttrDict bound to this job's document file with write_concern=True, only after the "
             "directory exists; `job.document = v` resets that persistent document exactly once whatever the value; handles are dropped on remove / id change (re-key contract, also checked under C05); signac.buffered & "
             "friends are attributes of that very class. The dict / buffering semantics themselves belong to the dependency: assumed, and checked bounded against a plain dict model (dependency "
-            "findings F23/F24 recorded; F26: a state point change after a buffered document write loses the buffered content).", "DESIGN 4/C05, 11", TECH + " of the wiring; bounded model-equality contract for the dependency's dict semantics", FS_NOTE),
+            "findings F23/F24 recorded; F26: a state point change after a buffered document write loses the buffered content). Added in the seed rounds: Job.clear / Job.move / Job.__deepcopy__ / Project.__init__ (path spelling) / open_job by a cached id are checked under C05 too; the document getter never writes and reuses an open handle whatever its content.", "DESIGN 4/C05, 11", TECH + " of the wiring; bounded model-equality contract for the dependency's dict semantics", FS_NOTE),
     "C06": ("other",
             "Contracts on the real query-evaluation chain (Project._find_job_ids / find_jobs, _SearchIndexer.build_index, _find_with_index_operator per operator and argument container, "
             "_find_expression, _find_result, Project._build_index, _root_keys/_add_prefix) discharged for all inputs against a per-job matcher specification; regex and isclose are uninterpreted (wiring proved). Known finding F3 "
             "($type bool vs 0/1 conflation) is reported, so the level is 'other' rather than 'proof'; a bounded run-time contract check of find() against a reference evaluator is the "
-            "stand-in/replay oracle.",
+            "stand-in/replay oracle. Defects F29 (mappings inside lists) and F30 (-1 / -1.0 in the typed index) were found by the bounded layer and repaired.",
             "DESIGN 4/C06, 11", TECH + " + bounded contract checking as replay oracle", BASE_TRUST),
     "C07": ("other", "_add_prefix / _root_keys proved per filter entry over z3 strings (a key gets the default sp. prefix iff it names no namespace; every operand of $and/$or/$not is reached), "
             "with counter-models replayed as concrete keys; JobsCursor len / membership / indexing proved to describe the one id list obtained from _find_job_ids with the cursor's own filter; "
             "JobsCursor.groupby proved over a filter-meaning evaluator: exactly the cursor's jobs (having every key when no default is given) are grouped, one key function sorts and groups, "
             "the label is the job's own value, nested keys looked up level by level (defect F6 found and repaired); the command-line front end (_cast, _parse_single, parse_simple, parse_filter_arg) and the "
-            "cursor / iterator wiring likewise. Spelling equivalences over whole queries are bounded.",
+            "cursor / iterator wiring likewise. Spelling equivalences over whole queries are bounded. Added in the seed rounds: parse_filter (white-space tokenisation), _parse_json, and the token recognisers _is_json_like / _is_regex over an arbitrary z3 string.",
             "DESIGN 4/C07, 11", TECH + " incl. string theory; bounded contract checking for the string front ends", BASE_TRUST),
     "C08": ("other", "Cache validity invariant (every entry hashes to its key) proved as an invariant of every function that writes the in-memory or persistent cache under contract "
             "(_get_statepoint, _read_cache, update_cache, Job.init, move, re-key, statepoint setter); update_cache postcondition: the file lists exactly the workspace ids, 'nothing to do' iff it "
             "already did; _get_statepoint returns a value hashing to the id whether it came from the cache or the workspace (transparency); _update_in_memory_cache proved (exactly the workspace ids "
             "afterwards; pool.map by an arbitrary-element rule on the real closure) on top of _split_and_print_progress (the chunks tile the list for every length and chunk count). "
-            "ThreadPool.map = one call per element is assumed: level 'other'.", "DESIGN 4/C08, 11", TECH + ", cache maps as z3 arrays", FS_NOTE),
+            "ThreadPool.map = one call per element is assumed: level 'other'. Added in the seed rounds: Job.init with a stale cached state point in its precondition, update_statepoint, open_job by id and the listing functions are checked under C08 as well.", "DESIGN 4/C08, 11", TECH + ", cache maps as z3 arrays", FS_NOTE),
     "C09": ("other", "Hash validation on load (_StatePointDict.load: returns only data whose id matches, otherwise JobsCorruptedError naming the job), Job.init(force), Project.check (accumulator "
             "invariant: names exactly the damaged ids, reads the workspace not the cache) and Project.repair (per-job triple, cache first, no exception escapes) discharged. 'Every repairable job "
             "is repaired' over whole workspaces is bounded (damage scenarios).", "DESIGN 4/C09, 11", TECH, FS_NOTE),
     "C10": ("other", "update_cache crash invariant asserted after every file-system effect incl. create/truncate and torn writes of the temp file: the cache file is always the complete old "
             "or a complete new content, only the '~' temp file may be torn, temp removed on error. Documents: the constructor sites pass write_concern=True (call-site obligations) and opening "
             "a persistent job file for writing in place is a forbidden effect for Job.clear / Job.reset and every other function under a job contract; the dependency's temp+replace contract "
-            "itself is assumed and exercised by the bounded crash-injection layer (process killed at every file-system step).", "DESIGN 4/C10, 11",
+            "itself is assumed and exercised by the bounded crash-injection layer (process killed at every file-system step). Added in the seed rounds: the document setters, Job.__deepcopy__ (the copy's document handle keeps its write concern) and _migrate_v1_to_v2 (an in-place open is an effect) are checked under C10.", "DESIGN 4/C10, 11",
             TECH + " with effect traces; bounded crash injection", FS_NOTE),
     "C11": ("other", "Crash-point invariants asserted after every file-system effect on every path, and exceptional postconditions for an injected OSError (symbolic errno != ENOENT) at every external, "
             "for Job.init, _StatePointDict.save/load, the re-key protocol, move, clone, remove, clear, reset, check and the repair body. Multi-step externals (rmtree, copytree) by assumed "
-            "partial-effect contracts; a bounded fault / crash injection layer runs the same operations natively.",
+            "partial-effect contracts; a bounded fault / crash injection layer runs the same operations natively. Added in the seed rounds: update_statepoint (one whole assignment) and os.path.isfile under stat faults in the re-key.",
             "DESIGN 4/C11, 11", TECH + " with effect traces and fault injection at every external", FS_NOTE),
     "C12": ("other", "Rely/guarantee verification at file-system-call granularity of the actor functions Project.__init__, _mkdir_p and Job.init (executed down through Job.statepoint, "
             "_StatePointDict.load/save and the dependency's read/write contracts): under interference by any number of other actors of the script set before every file-system call, no "
             "exception escapes, the job directory holds a valid state point on return, and every own effect is a step the others may rely on. This covers every interleaving, not a sample. "
             "Document-write visibility and torn-read freedom rest on the dependency's atomic-replace contract (assumed; see C10); listing under interference and the whole-run lemma are not "
-            "mechanised; a bounded two-process scheduler (one preemption at every file-system step of one process) runs the actor scripts natively: level 'other'.",
+            "mechanised; a bounded two-process scheduler (one preemption at every file-system step of one process) runs the actor scripts natively: level 'other'. Added in the seed rounds: the document getter never writes (a first read cannot race with a write) and _job_dirs tolerates a missing workspace; reader-preempted schedules in the bounded layer.",
             "DESIGN 4/C12, 11", TECH + " in rely/guarantee mode: interference before every external, guarantee obligation per effect", FS_NOTE),
     "C13": ("other", "One directory level of the file walk (_sync_job_workspaces) proved for all listings, exclude sets and strategies: left-only files copied iff not excluded, left-only directories iff "
             "recursive, differing files iff the strategy says so, nothing else copied, every copy goes to the same relative place, common sub-directories visited with all options forwarded (the recursive "
             "call is the induction hypothesis). sync_jobs / sync_projects wiring: reserved files excluded by exact name, exactly the selected jobs (an empty selection: none) cloned or synchronised, "
-            "schema gate before any effect. Source-unchanged / idempotence / superset over whole projects: bounded run-time contracts.", "DESIGN 4/C13, 11",
+            "schema gate before any effect. Source-unchanged / idempotence / superset over whole projects: bounded run-time contracts. Added in the seed rounds: the file proxy methods, create_backup (an existing file under the backup name is refused and left alone) and FileSync.update (ties) are checked under C13; option values of the front ends are handed on by identity.", "DESIGN 4/C13, 11",
             TECH + " of the per-level triple and the call-site obligations; bounded contract checking of whole-project clauses", SYNC_NOTE),
     "C14": ("other", "'Overwritten iff the strategy returns true' and 'FileSyncConflict before touching any differing file' proved per directory level; FileSync.update / always / never proved against "
             "an os.stat model (update: iff the source is strictly newer); DocSync.ByKey per nesting level: a key is overwritten iff absent or differing-scalar-and-selected, differing mappings are "
             "merged recursively under the full dotted prefix, unselected conflicts recorded under their full name; create_backup / create_doc_backup: on any exception of the body the document "
-            "is its pre-sync content and the backup is removed.", "DESIGN 4/C14, 11",
+            "is its pre-sync content and the backup is removed. Added in the seed rounds: DocSync.update against Python equality being coarser than JSON identity, the stale-backup cases of both backup functions, no buffering block around the forwarded sync call.", "DESIGN 4/C14, 11",
             TECH + ", generator context managers executed at their yield point", SYNC_NOTE),
     "C15": ("other", "Dry-run frame proved for every method of _FileModifyProxy and _DocProxy (no file-system call, no document mutation, completes like the live run), for ByKey's nested writes (gated "
             "destination required at the recursive call) and up through sync_jobs (never initialises the destination in a dry run); deep / recursive / exclude / strategy / proxy forwarding proved as call-site "
-            "obligations of sync_jobs, sync_projects and the recursive walk. parallel=True/N: bounded only (thread pool outside the sequential executor).", "DESIGN 4/C15, 11",
+            "obligations of sync_jobs, sync_projects and the recursive walk. parallel=True/N: bounded only (thread pool outside the sequential executor). Added in the seed rounds: the parallel branch of sync_projects (ThreadPool.imap as 'f once per job'), bulk document mutators as effects, the methodmap class constant of _dircmp_deep.", "DESIGN 4/C15, 11",
             TECH + ": frame obligations on an effect log, call-site forwarding obligations", SYNC_NOTE),
     "C16": ("other", "Export side under contract: _check_directory_structure_validity proved with loop invariants over a token-prefix theory (accepted iff no export path is a proper token prefix of "
             "another, in any order), _check_path_function_unique (refused iff two jobs share a path), _make_path_function (a generated path function is only returned after the one-to-one check), "
@@ -88,7 +88,7 @@ CLAIMS = {
             "the returned closure executed for an arbitrary job), _AutoPathFormatter.format_field, the three copy executors, "
             "_export_jobs (checks before the first copy, exactly one copy and one report per job); Project.clone / Job.init carry 'never overwrites an existing job'. Import side: _crawl_directory_data_space (an identified job directory is pruned in place from the walk), "
             "_analyze_directory_for_import (refused iff two sources map to one job), _copy_to_job_workspace, _with_consistency_check. The zip / tar analysers (a directory becomes a job iff identified and not below an identified one), export_jobs, the three exporters and the import front ends are under "
-            "contract as well; the archive libraries themselves are trusted and whole round trips are decided by the bounded layer. Four defects found this way were repaired (F17, F18, F19, F25).", "DESIGN 4/C16, 11",
+            "contract as well; the archive libraries themselves are trusted and whole round trips are decided by the bounded layer. Four defects found this way were repaired (F17, F18, F19, F25). Added in the seed rounds: _make_schema_based_path_function, the copy executors, _AutoPathFormatter.format_field, and the flatten / unflatten helpers on a family of concrete mappings.", "DESIGN 4/C16, 11",
             TECH + " for the export-side checks; bounded run-time contract checking (stand-in, labelled bounded) for whole round trips", BASE_TRUST),
     "C17": ("other", "_update_view proved with loop invariants over three symbolic work lists: every obsolete path removed, every changed link unlinked and re-created, every new link created, "
             "nothing else touched, and an early 'up to date' exit only when all lists are empty; _analyze_view (obsolete = every non-empty dead branch but the root, deepest first; "
@@ -98,15 +98,15 @@ CLAIMS = {
             TECH + " of _update_view; bounded contract checking of the view as a whole", BASE_TRUST),
     "C18": ("other", "diff_jobs proved against set algebra on flattened (key, value) pairs for 0..3 jobs of arbitrary content (each diff = pairs not shared by all; common + diff reconstructs); "
             "detect_schema proved to summarise exactly the selected existing jobs (an empty selection selects nothing) with exclude_const forwarded; _build_index per job; _build_job_statepoint_index with loop invariants (exactly the state point keys of the indexed jobs; a key is left out iff constants are excluded "
-            "and one value is shared by all jobs). The value index itself (_SearchIndexer.build_index) is bounded (known finding F3).", "DESIGN 4/C18, 11",
+            "and one value is shared by all jobs). The value index itself (_SearchIndexer.build_index) is bounded (known finding F3). Added in the seed rounds: the flatten / unflatten helpers on a family of concrete mappings; defects F29 and F30 found by the bounded layer and repaired.", "DESIGN 4/C18, 11",
             TECH + "; bounded contract checking against reference summaries", BASE_TRUST),
     "C19": ("other", "_locate_config_dir proved with loop invariants and a decreasing variant over an axiomatised directory chain; Project.get_project (nearest enclosing project, only the directory "
             "itself without search, LookupError conditions), Project.get_job (the last id-like path component, project searched from its parent), Project.init_project (an existing project is "
             "returned without any write; nothing is written before the legacy gate) and the module-level front ends proved on top of it. Whole directory trees incl. symlinks and relative paths "
-            "are bounded.", "DESIGN 4/C19, 11", TECH + ", inductive loop invariants over a directory-chain theory", BASE_TRUST),
+            "are bounded. Added in the seed rounds: path queries in the module-level forwarders; non-existent paths and stray signac.rc files in the bounded trees.", "DESIGN 4/C19, 11", TECH + ", inductive loop invariants over a directory-chain theory", BASE_TRUST),
     "C20": ("other", "Integer contract of the version gate (_check_schema_compatibility passes iff version == 2, for every integer), _raise_if_older_schema refuses every loadable config of "
             "another version, _locate_config_dir's legacy scan, init_project's legacy gate, and the migration chain (_collect_migrations, apply_migrations, _migrate_v1_to_v2: exactly the "
-            "documented effects in order) discharged; configobj / filelock and end-to-end preservation of every job are bounded (legacy configurations migrated with the real code).",
+            "documented effects in order) discharged; configobj / filelock and end-to-end preservation of every job are bounded (legacy configurations migrated with the real code). Added in the seed rounds: configurations without a version, sessions that use '.' for two projects in turn.",
             "DESIGN 4/C20, 11", TECH, BASE_TRUST),
 }
 
